@@ -373,7 +373,21 @@ def judge(ctx, case, fails):
         ctx.violation('failing-input', what, case, exp, obs, python=py_of(case))
 
 
+# hand-made documents that run first
+FIXED = [
+    # ordered groups over dovetails whose alignment is not its own complement, walked along and against the edge, with the
+    # first segment of the edge on either side of the GFA1 link
+    {'kind': 'gfa2', 'doc': ['S\ta\t10\t*', 'S\tb\t10\t*', 'S\tc\t10\t*', 'E\te1\ta+\tb+\t0\t3\t7\t10$\t2M1D1M', 'E\te2\tb+\tc-\t0\t4\t0\t3\t1M1I2M',
+                             'O\to1\tb+ a+', 'O\to2\ta- b-', 'O\to3\tc- b+', 'O\to4\tb- c+', 'O\to5\tc- b+ a+', 'O\to6\ta- b- c+']},
+    # a circular path, a path over one segment, a path against a link with insertions
+    {'kind': 'gfa1', 'doc': ['S\ta\tACGTACGTAC', 'S\tb\tACGTACGTAC', 'L\ta\t+\tb\t-\t2M1I1M', 'L\tb\t-\ta\t+\t1M1D2M', 'P\tpc\ta+,b-\t2M1I1M,1M1D2M',
+                             'P\tp1\ta-\t*', 'P\tpr\tb+,a-\t1M1D2M', 'C\ta\t-\tb\t+\t2\t3M1D2M']},
+]
+
+
 def gen_case(rng, i):
+    if i < len(FIXED):
+        return dict(FIXED[i])
     if i % 3 != 2:
         lines, info = gen.gen_gfa1(rng, seqs=rng.choice(['seq', 'ln', 'both']), cigar_codes='MIDP', lengths=True)
         # domain of the property: specified overlaps, proper dovetails
